@@ -8,7 +8,7 @@
 From Coq Require Import List Arith Bool Reals QArith Lia Lra ZArith.
 From TLV Require Import Base.Shape Base.PyList Base.Tensor Base.Ops Base.RSum Model.Metrics Model.MetricsSrc Proofs.MetricsProofs
   Proofs.MetricsProofs2 Proofs.MetricsProofs3 Proofs.MetricsProofs4 Proofs.MetricsProofs5 Proofs.MetricsProofs6
-  Proofs.MetricsProofs7 Proofs.MetricsProofs8 Proofs.MetricsProofs9 Proofs.MetricsProofs10 Proofs.MetricsProofs11 Proofs.MetricsProofs12 Proofs.MetricsProofs13 Proofs.MetricsProofs14 Proofs.MetricsProofs15 Proofs.MetricsProofs16 Proofs.MetricsProofs17 Proofs.MetricsProofs18 Proofs.MetricsProofs19 Proofs.MetricsProofs20 Proofs.MetricsSrcTie Model.MetricsPermute Model.MetricsAxis.
+  Proofs.MetricsProofs7 Proofs.MetricsProofs8 Proofs.MetricsProofs9 Proofs.MetricsProofs10 Proofs.MetricsProofs11 Proofs.MetricsProofs12 Proofs.MetricsProofs13 Proofs.MetricsProofs14 Proofs.MetricsProofs15 Proofs.MetricsProofs16 Proofs.MetricsProofs17 Proofs.MetricsProofs18 Proofs.MetricsProofs19 Proofs.MetricsProofs20 Proofs.MetricsProofs21 Proofs.MetricsProofs22 Proofs.MetricsSrcTie Model.MetricsPermute Model.MetricsAxis.
 Import ListNotations.
 Local Close Scope Q_scope.
 Local Open Scope R_scope.
@@ -920,3 +920,38 @@ Example C20_ex_axis_forms :
   metric_value Qops (fun x => x) MCov (AxTuple [(-1)%Z]) y z = Err /\
   metric_value Qops (fun x => x) MMSE (AxTuple [(-1)%Z]) y z = metric_value Qops (fun x => x) MMSE (AxInt 1) y z.
 Proof. vm_compute. repeat split. Qed.
+
+(* ---------- what a passing case means, continued: certified congruence cases and correlation_index cases ---------- *)
+Theorem C20_agree_cong_dual_sound : forall (absv : bool) (As Bs : list (mat Q)) (nas nbs : list (list Q)) (vs : list Q) (brute : bool)
+  (v : Q) (p : list nat),
+  Corr.C20.agree_cong_dual absv As Bs nas nbs vs brute (Ok (v, p)) = true ->
+  exists (r : nat) (Cq : mat Q), let C := mapR Cq in
+    cong_matrix Rops absv (map mapR As) (map mapR Bs) (map (map Q2R) nas) (map (map Q2R) nbs) = Ok (r, C) /\
+    Rabs (Q2R v - score Rops r C p) <= / 10 ^ 9 * (1 + Rabs (Q2R v) + Rabs (score Rops r C p)) /\
+    ((0 < r)%nat -> is_perm r p /\ forall q, is_perm r q -> score Rops r C q <= score Rops r C p + / 10 ^ 9 + / 2 ^ 80).
+Proof. exact agree_cong_dual_sound. Qed.
+Print Assumptions C20_agree_cong_dual_sound.
+
+Theorem C20_agree_corridx_sound : forall (meth : option cmethod) (ctol : Q) (f1 f2 : list (mat Q)) (n1 n2 : list (list Q)) (v : Q),
+  Corr.C20.agree_corridx meth ctol f1 f2 n1 n2 (Ok v) = true ->
+  exists vm : R, correlation_index Rops meth (Q2R ctol) (map mapR f1) (map mapR f2) (map (map Q2R) n1) (map (map Q2R) n2) = Ok vm /\
+    Rabs (Q2R v - vm) <= / 10 ^ 9 * (1 + Rabs (Q2R v) + Rabs vm).
+Proof. exact agree_corridx_sound. Qed.
+Print Assumptions C20_agree_corridx_sound.
+
+(* ---------- the cp_normalize calls of cp_permute_factors change NO entry of the congruence matrix when no weight is zero (the list
+   branch: reference and tensor both normalised; nas / nbs = norm tapes of the original factors; mode_at .. k = the k-th pair
+   with its tapes) -- so, with C20_optimal_matching_rescale_invariant, the same matchings are optimal with and without them ---------- *)
+Theorem C20_normalisation_keeps_congruence_matrix : forall (ref t : ptensor R) (r n : nat) (nas nbs : list (list R)),
+  length (pfs ref) = n -> length (pfs t) = n -> length (pnorm ref) = n -> length (pnorm t) = n ->
+  length (pcong ref) = n -> length (pcong t) = n -> length nas = n -> length nbs = n ->
+  (forall k, (k < n)%nat -> length (nth k (pnorm ref) []) = r /\ length (nth k (pnorm t) []) = r) ->
+  (forall i, (i < r)%nat -> Transforms.vget Rops (pw ref) i <> 0 /\ Transforms.vget Rops (pw t) i <> 0) ->
+  (forall k, (k < n)%nat -> mode_ok r (mode_at (pfs ref) (pfs t) nas nbs k) /\
+                            mode_ok r (mode_at (compared Rops true ref) (compared Rops true t) (pcong ref) (pcong t) k)) ->
+  let ms := zip_modes (pfs ref) (pfs t) nas nbs in
+  let ms' := zip_modes (compared Rops true ref) (compared Rops true t) (pcong ref) (pcong t) in
+  modes_rescaled true r ms ms' /\
+  forall i j, (i < r)%nat -> (j < r)%nat -> mget Rops (cong_all Rops true r ms') i j = mget Rops (cong_all Rops true r ms) i j.
+Proof. exact normalisation_keeps_congruence_matrix. Qed.
+Print Assumptions C20_normalisation_keeps_congruence_matrix.
